@@ -285,6 +285,8 @@ pub struct Fixture {
     reader: Option<BufReader<UnixStream>>,
     responder: Option<std::thread::JoinHandle<()>>,
     fence: ResourceControl<StdClock>,
+    /// the command record could not be brought up to date (infrastructure trouble)
+    pub fence_failed: std::cell::Cell<bool>,
     pub debug_layout_ok: bool,
     pub has_debug_snapshot: bool,
 }
@@ -466,10 +468,10 @@ impl Fixture {
 
         let stream = UnixStream::connect(&sock).map_err(|e| format!("connect: {e}"))?;
         stream
-            .set_read_timeout(Some(Duration::from_secs(20)))
+            .set_read_timeout(Some(Duration::from_secs(180)))
             .map_err(|e| e.to_string())?;
         stream
-            .set_write_timeout(Some(Duration::from_secs(20)))
+            .set_write_timeout(Some(Duration::from_secs(180)))
             .map_err(|e| e.to_string())?;
         let reader = BufReader::new(stream.try_clone().map_err(|e| e.to_string())?);
 
@@ -493,6 +495,7 @@ impl Fixture {
             reader: Some(reader),
             responder: Some(responder),
             fence,
+            fence_failed: std::cell::Cell::new(false),
             debug_layout_ok: true,
             has_debug_snapshot,
         };
@@ -516,7 +519,13 @@ impl Fixture {
             })
             .is_ok()
         {
-            let _ = rx.recv_timeout(Duration::from_secs(5));
+            // no practical bound: a probe read before the record is complete would show a
+            // change that belongs to the previous request
+            if rx.recv_timeout(Duration::from_secs(600)).is_err() {
+                self.fence_failed.set(true);
+            }
+        } else {
+            self.fence_failed.set(true);
         }
     }
 
